@@ -10,4 +10,6 @@ require (
 	golang.org/x/text v0.11.0
 )
 
+require github.com/vmihailenco/tagparser/v2 v2.0.0 // indirect
+
 replace github.com/zclconf/go-cty => /repo
